@@ -77,6 +77,83 @@ def run(F, rep, tier):
     final(F, rep, T)
     lex_safe(F, rep, T)
     no_expr_statement(F, rep, T)
+    loop_label(F, rep)
+
+
+IRM = "sylt_compiler::intermediate::"
+
+
+def loop_label(F, rep):
+    """`break` is only legal Lua inside a loop of the same function, `goto L` only where `::L::` is visible.  The
+    lowering emits IR::Break / IR::Goto(ctx.closest_loop) for every break / continue it meets, so (a) the checker must
+    reject them wherever the lowering has no enclosing loop - its `inside_loop` flag is true exactly for a loop's body
+    and reset by function literals (the CTX instances of C05) - and (b) the lowering's closest_loop for the statements
+    of a loop body is the label that this very loop writes (IR::Label(l) after IR::Loop), everything else inherits."""
+    import c05
+    import tc
+    from flow import Flow
+    from hir import walk, call_args, pat_bindings, pat_fields
+    from engines import ty_is
+    c05.loop_flag(F, rep)
+    fst = F.fn(IRM + "IRCodeGen::statement")
+    rep.analysed(fst)
+    fl = Flow(fst, fn_body(fst))
+    arms = tc.arm_of(F, fst, "sylt_compiler::name_resolution::Statement", "Loop")
+    if not arms:
+        rep.anchor_missing("IRCodeGen::statement Loop arm")
+        return
+    arm, alt = arms[0]
+    lits = [x for x in nodes(arm["body"], "Struct") if ty_is(x.get("ty", ""), IRM + "IRContext")]
+    ok_lit = ok_label = ok_body = False
+    lab = None
+    for lit in lits:
+        for fe in lit["fields"]:
+            if fe["name"] == "closest_loop":
+                v = peel(fe["e"])
+                if v.get("k") == "Path" and v.get("res") == "Local":
+                    src = peel(fl.trace(v))
+                    if src.get("k") == "MethodCall" and callee(src) == IRM + "IRCodeGen::label":
+                        ok_lit, lab = True, v["hid"]
+    if lab is not None:
+        for c in nodes(arm["body"], "Call"):
+            if (callee(c) or "").endswith("intermediate::IR::Label") and any(x.get("hid") == lab for x in nodes(c["args"], "Path")):
+                ok_label = True
+        # the literal is the context of the calls that lower the loop's `body` statements
+        for c in nodes(arm["body"], "MethodCall"):
+            if callee(c) == IRM + "IRCodeGen::statement":
+                a = call_args(c)
+                is_lit = any(x is lits[0] for x in nodes(a[2])) if len(a) > 2 else False
+                if is_lit and tc.root_field(fl, a[1]).startswith("body"):
+                    ok_body = True
+    rep.ob("LOOP-LABEL", "IRCodeGen::statement|Loop|fresh-label", ok_lit,
+           "the loop's body is lowered under IRContext { closest_loop: l } with l = self.label() (a fresh label)", line_of(arm))
+    rep.ob("LOOP-LABEL", "IRCodeGen::statement|Loop|label-written", ok_label,
+           "the same l is written as IR::Label(l) by the loop's own lowering, so `goto l` from its body sees the label", line_of(arm))
+    rep.ob("LOOP-LABEL", "IRCodeGen::statement|Loop|body-gets-label", ok_body,
+           "the statements lowered under that context are the loop's `body` (the part the checker marks inside_loop)", line_of(arm))
+    # no other IRContext literal; IRContext::new() only at the root
+    other = []
+    news = []
+    for fn in F.fns_in(IRM):
+        for x in nodes(fn_body(fn), "Struct"):
+            if ty_is(x.get("ty", ""), IRM + "IRContext") and not any(x is l for l in lits) and last(fn["_path"], 2) != "IRContext::new":
+                other.append(last(fn["_path"], 2))
+        for c in nodes(fn_body(fn), "Call"):
+            if callee(c) == IRM + "IRContext::new":
+                news.append(last(fn["_path"], 2))
+    rep.ob("LOOP-LABEL", "IRContext|single-literal", not other and len(lits) == 1,
+           "IRContext is only rebuilt in the Loop arm (%d literal there; elsewhere: %s)" % (len(lits), other), line_of(arm))
+    rep.ob("LOOP-LABEL", "IRContext::new|root-only", news == ["IRCodeGen::compile"],
+           "IRContext::new() (no enclosing loop) is only created by %s" % news, None)
+    # Goto is only emitted with the context's label; Break only by the Break arm and the loop's own exit test
+    gotos = []
+    for fn in F.fns_in(IRM):
+        for c in nodes(fn_body(fn), "Call"):
+            if (callee(c) or "").endswith("intermediate::IR::Goto"):
+                a = peel(c["args"][0])
+                gotos.append(a.get("k") == "Field" and a["name"] == "closest_loop" and ty_is(a.get("base_ty", ""), IRM + "IRContext"))
+    rep.ob("LOOP-LABEL", "IR::Goto|context-label-only", bool(gotos) and all(gotos),
+           "every IR::Goto targets ctx.closest_loop (%d sites)" % len(gotos), None)
 
 
 def grammar(F, rep, T):
